@@ -45,8 +45,22 @@ for p in sorted(glob.glob(HERE + '/benign/*/meta.json')):
     hist = m.get('history') or m.get('note') or ('-' if m.get('quiet') else 'alarmed on: ' + m.get('alarm_groups', ''))
     rows.append(f"| {name} | {m['property']} | {q} | {str(hist)[:300].replace('|', '/')} |")
 benign_tab = '\n'.join(rows)
+ms = [json.load(open(p)) for p in sorted(glob.glob(HERE + '/seeded/*/meta.json'))]
+bs = [json.load(open(p)) for p in sorted(glob.glob(HERE + '/benign/*/meta.json'))]
+n_obs = sum(1 for m in ms if m.get('obsolete'))
+n_first = sum(1 for m in ms if m.get('detected', True) and not m.get('history') and not m.get('obsolete'))
+n_after = sum(1 for m in ms if m.get('detected', True) and m.get('history') and not m.get('obsolete'))
+n_miss = sum(1 for m in ms if not m.get('detected', True) and not m.get('obsolete'))
+b_q0 = sum(1 for m in bs if m.get('quiet') and not (m.get('history') or m.get('correction')))
+b_q1 = sum(1 for m in bs if m.get('quiet') and (m.get('history') or m.get('correction')))
+b_no = sum(1 for m in bs if not m.get('quiet'))
+stats_tab = (f"Totals (generated): {len(ms)} seeded property-breaking changes - {n_first} caught by the check as it stood, "
+             f"{n_after} caught after the check was strengthened or the patch re-based (see `history` in each meta.json), "
+             f"{n_miss} currently not caught, {n_obs} neutralised by a later /repo fix and kept for the record; "
+             f"{len(bs)} property-preserving changes - {b_q0} left the check quiet as it stood, {b_q1} quiet after an "
+             f"over-strict clause was restated, {b_no} currently alarming or no longer applicable (adopted as a fix).")
 d = open(HERE + '/DESIGN.md').read()
-for key, tab in (('FIXES', fix_tab), ('OPEN', open_tab), ('SEEDED', seed_tab), ('BENIGN', benign_tab)):
+for key, tab in (('FIXES', fix_tab), ('OPEN', open_tab), ('SEEDED', seed_tab), ('BENIGN', benign_tab), ('STATS', stats_tab)):
     a, b = f'<!-- GEN:{key}:BEGIN -->', f'<!-- GEN:{key}:END -->'
     if a in d:
         d = d[:d.index(a) + len(a)] + '\n' + tab + '\n' + d[d.index(b):]
